@@ -688,6 +688,23 @@ func (r *Run) runHandlerOps(ctx context.Context, stream grpc.ServerStream) {
 			r.rec(Event{Who: "h", Op: "waitctx", Call: true})
 			<-ctx.Done()
 			r.rec(Event{Who: "h", Op: "waitctx", Err: ctx.Err()})
+		case "spawn-recv":
+			// a reader goroutine of the handler that keeps receiving, also after the handler returned; its
+			// receives must come to an end (with an error) once the handler has returned
+			if stream == nil {
+				continue
+			}
+			go func() {
+				for n := 0; n < recvAllLimit; n++ {
+					var err error
+					r.rec(Event{Who: "hr", Op: "bg-recv", Call: true})
+					pan := guard(func() { err = stream.RecvMsg(new(tpb.Message)) })
+					r.rec(Event{Who: "hr", Op: "bg-recv", Err: err, Pan: pan})
+					if err != nil || pan != "" {
+						return
+					}
+				}
+			}()
 		case "bg-sends":
 			// a second goroutine of the handler pushes three copies of the message while the handler itself goes
 			// on with its next operations (a full-duplex handler); the handler waits for it before returning
